@@ -300,17 +300,43 @@ theorem resolve_ok {fx : Fixes} {a : Args} {v : SshConfigView} {r : Resolved} (h
   · simp [resolve, setupHost, h0] at h
   · by_cases hd : (fx.rejectDashHost && (strip a.host).head? == some '-') = true
     · simp [resolve, setupHost, h0, hd] at h
-    · refine ⟨h0, ?_, ?_⟩
-      · intro hf hh
-        simp [hf, hh] at hd
-      · by_cases hk : a.key = []
-        · simp [resolve, setupHost, h0, hd, hk] at h
-          exact ⟨[], by simp [hk], h.symm⟩
-        · cases hr : resolveFile v a.key with
-          | error e => simp [resolve, setupHost, h0, hd, hk, hr] at h
-          | ok key =>
-            simp [resolve, setupHost, h0, hd, hk, hr] at h
-            exact ⟨key, by simp [hk], h.symm⟩
+    · by_cases hu : (fx.rejectDestSyntax && !destPlain (strip a.host)) = true
+      · simp [resolve, setupHost, h0, hd, hu] at h
+      · refine ⟨h0, ?_, ?_⟩
+        · intro hf hh
+          simp [hf, hh] at hd
+        · by_cases hk : a.key = []
+          · simp [resolve, setupHost, h0, hd, hu, hk] at h
+            exact ⟨[], by simp [hk], h.symm⟩
+          · cases hr : resolveFile v a.key with
+            | error e => simp [resolve, setupHost, h0, hd, hu, hk, hr] at h
+            | ok key =>
+              simp [resolve, setupHost, h0, hd, hu, hk, hr] at h
+              exact ⟨key, by simp [hk], h.symm⟩
+
+/-- with the proposed destination-syntax fix every accepted host is one ssh takes as a plain host name -/
+theorem resolve_ok_dest {fx : Fixes} {a : Args} {v : SshConfigView} {r : Resolved} (h : resolve fx a v = .ok r)
+    (hf : fx.rejectDestSyntax = true) : destPlain (strip a.host) = true := by
+  by_cases hp : destPlain (strip a.host) = true
+  · exact hp
+  · by_cases h0 : a.host = []
+    · simp [resolve, setupHost, h0] at h
+    · by_cases hd : (fx.rejectDashHost && (strip a.host).head? == some '-') = true
+      · simp [resolve, setupHost, h0, hd] at h
+      · simp [resolve, setupHost, h0, hd, hf, hp] at h
+
+theorem splitLastAt_none (d : Str) (h : noAt d = true) : splitLastAt d = none := by
+  induction d with
+  | nil => rfl
+  | cons c cs ih =>
+    simp [noAt] at h
+    have := ih (by simp [noAt]; exact h.2)
+    simp [splitLastAt, this, h.1]
+
+/-- on a plain word ssh takes nothing out of the destination -/
+theorem parseDest_plain (d : Str) (h : destPlain d = true) : parseDest d = { user := none, host := d, port := none } := by
+  simp [destPlain] at h
+  simp [parseDest, h.2, splitLastAt_none d h.1]
 
 theorem resolveFile_ok {v : SshConfigView} {f key : Str} (h : resolveFile v f = .ok key) :
     key = (if v.isFile f then f else expandUser v.home f) := by
@@ -420,6 +446,24 @@ theorem firstExisting_ne (v : SshConfigView) (hwf : v.WF) (l : List Str) (p : St
   have hf := firstExisting_isFile v l p h
   obtain ⟨h1, h2, h3⟩ := hwf
   refine ⟨?_, ?_, ?_⟩ <;> (intro he; subst he; simp_all)
+
+/-- specification of a reported ssh file name (config or known hosts): telnet / `False` → none; `True` (or `""`) on the
+    system transport → the marker that makes ssh use its own files; else the given path if it is an existing file,
+    else the user's file, else the system-wide file, else none -/
+def specFile (v : SshConfigView) (t : Transport) (arg : FileArg) (marker userPath sysPath : Str) : Str :=
+  if isTelnet t = true then []
+  else if arg = .no then []
+  else if arg.str = [] ∧ isSystem t = true then marker
+  else (firstExisting v [arg.str, userPath, sysPath]).getD []
+
+theorem setupSshFileArgs_spec (v : SshConfigView) (t : Transport) (c k : FileArg) :
+    setupSshFileArgs v t c k =
+      (specFile v t c magicCfg userCfgPath sysCfgPath, specFile v t k magicKh userKhPath sysKhPath) := by
+  by_cases ht : isTelnet t = true
+  · simp [setupSshFileArgs, specFile, ht]
+  · by_cases hs : isSystem t = true <;> by_cases hc : c = .no <;> by_cases hk : k = .no <;>
+      by_cases hce : c.str = [] <;> by_cases hke : k.str = [] <;>
+      simp [setupSshFileArgs, specFile, ht, hs, hc, hk, hce, hke, resolveSshConfig, resolveSshKnownHosts, firstFile_eq]
 
 /-- library ssh transports: the entry folded in is the one the specification names -/
 theorem entry_lib (a : Args) (v : SshConfigView) (hwf : v.WF) (ht : isTelnet a.transport = false)
@@ -597,11 +641,13 @@ theorem precedence_lib (fx : Fixes) (a : Args) (v : SshConfigView) (key : Str) (
 theorem precedence_sys (fx : Fixes) (a : Args) (v : SshConfigView) (key : Str) (hwf : v.WF) (hx : a.extra = [])
     (ht : isTelnet a.transport = false) (hc : consultsCfg a.transport = false) (hs : isSystem a.transport = true)
     (hnd : (strip a.host).head? ≠ some '-')
+    (hdp : destPlain (construct fx a v (strip a.host) key).bta.host = true)
     (hk : (a.key = [] → key = []) ∧
           (a.key ≠ [] → key ≠ [] ∧ key = (if v.isFile a.key then a.key else expandUser v.home a.key)))
     (hSys : a.port = none → ∀ q, (specCfgEntry a v).portTruthy = some q → q = 22) :
     PrecedenceHolds a v (construct fx a v (strip a.host) key) := by
   obtain ⟨-, fbh, fcfg, -, -, -, -, fex, -, fbport, fuser, fkey⟩ := folded_spec fx a v (strip a.host) key
+  have hpd := parseDest_plain _ (by rw [construct_bta] at hdp; exact hdp)
   have hfe : foldedEntry a v = {} := by simp [foldedEntry, hc]
   rw [hfe] at fbport fuser fkey
   simp [HostCfg.portTruthy] at fbport fuser fkey
@@ -630,7 +676,7 @@ theorem precedence_sys (fx : Fixes) (a : Args) (v : SshConfigView) (key : Str) (
     simp [getopts]
   have hent := entry_sys a v hwf ht hs
   refine ⟨_, by rw [effective, hs, if_pos rfl, hparse], ?_, ?_, ?_⟩
-  · simp only [sshEffective, q1]
+  · simp only [sshEffective, hpd, q1]
     congr 1
     rw [fbport]
     unfold specPort
@@ -640,10 +686,10 @@ theorem precedence_sys (fx : Fixes) (a : Args) (v : SshConfigView) (key : Str) (
       cases hq : (specCfgEntry a v).portTruthy with
       | none => simp [initialPort, hp, ht, defaultPortSsh]
       | some q => simp [initialPort, hp, ht, defaultPortSsh, hSys hp q hq]
-  · simp only [sshEffective, q2, q4, hent]
+  · simp only [sshEffective, hpd, q2, q4, hent]
     unfold specUser
     by_cases h1 : a.user = [] <;> simp [h1, ht]
-  · simp only [sshEffective, q3, q4, hent]
+  · simp only [sshEffective, hpd, q3, q4, hent]
     unfold specKey
     by_cases h1 : a.key = []
     · simp [h1, ht, hk.1 h1]
